@@ -163,6 +163,31 @@ where
             s
         });
     }
+    if let Take::NextForget(kk) = k {
+        // `kk` calls of `next()`, then the chunk iterator is leaked: its destructor (if it has one) never runs
+        let mut pulled = 0usize;
+        while pulled < kk {
+            match values.next() {
+                Some(x) => {
+                    let v = x.val();
+                    x.forget();
+                    untracked(|| got.push(v));
+                    pulled += 1;
+                }
+                None => break,
+            }
+        }
+        let l = values.len();
+        std::mem::forget(values);
+        return untracked(|| {
+            let mut s = format!("ret chunk {} {} {}", begin, a, l);
+            for v in &got {
+                let _ = write!(s, " {}", v);
+            }
+            drop(got);
+            s
+        });
+    }
     if matches!(k, Take::Fold | Take::Count) {
         // `Iterator::fold` / `Iterator::count` take the chunk iterator by value (an override of either in the crate is
         // what runs); whatever they leave unconsumed is dropped by the iterator inside the call
